@@ -323,3 +323,104 @@ def c03_battery(binary):
         shutil.rmtree(d, ignore_errors=True)
     _memo[("c03", binary)] = devs
     return devs
+
+
+# ------------------------------------------------------------------ C11: the dry-run script is what a real run does
+
+def _tree_state(root):
+    """names -> (kind, content / link target); plus the partition of regular files by inode"""
+    st = {}
+    inodes = {}
+    for dp, dn, fn in os.walk(root):
+        for n in fn:
+            p = os.path.join(dp, n)
+            rel = os.path.relpath(p, root)
+            if os.path.islink(p):
+                st[rel] = ("symlink", os.path.relpath(os.path.join(os.path.dirname(p), os.readlink(p)), root))
+            else:
+                s = os.lstat(p)
+                st[rel] = ("file", open(p, "rb").read())
+                inodes.setdefault((s.st_dev, s.st_ino), []).append(rel)
+    return st, sorted(sorted(v) for v in inodes.values())
+
+
+def c11_battery(binary):
+    """for several trees / operations / options: summary of --dry-run == summary of the real run; executing the printed script with
+    bash on an identical tree gives the tree the real run gives (remove, link, link --soft); group order of the script = report order"""
+    import re
+    if ("c11", binary) in _memo:
+        return _memo[("c11", binary)]
+    devs = []
+
+    def mk_plain(root):
+        os.makedirs(root)
+        for g, c in (("g1", b"1" * 3000), ("g2", b"2" * 2000), ("g3", b"3" * 1000)):
+            for n in ("a", "b", "c"):
+                sub = os.path.join(root, n)
+                os.makedirs(sub, exist_ok=True)
+                open(os.path.join(sub, "%s_%s.bin" % (g, n)), "wb").write(c)
+        os.link(os.path.join(root, "c", "g3_c.bin"), os.path.join(root, "c", "g3_c_link.bin"))
+
+    def mk_hostile(root):
+        os.makedirs(root)
+        names = ["plain", "with space", "quote'single", 'quote"double', "dollar$HOME", "new\nline", "tab\there", "back\\slash", "~tilde", "star*", "semi;colon", "żółw"]
+        for i, n in enumerate(names):
+            open(os.path.join(root, n + ".1"), "wb").write(bytes([65 + i]) * (100 + i))
+            open(os.path.join(root, n + ".2"), "wb").write(bytes([65 + i]) * (100 + i))
+
+    def mk_sizes(root):
+        os.makedirs(root)
+        os.makedirs(os.path.join(root, "a"))
+        os.makedirs(os.path.join(root, "b"))
+        open(os.path.join(root, "a", "plain"), "wb").write(b"A" * 1000)
+        open(os.path.join(root, "b", "padded"), "wb").write(b"A" * 1000 + b"X" * 2000)
+
+    scenarios = [
+        ("plain", mk_plain, [], [["remove"], ["link"], ["link", "--soft"], ["remove", "--keep-name", "g1_*"], ["remove", "--keep-name", "g2_*"],
+                                 ["remove", "--keep-path", "**/a/*", "--keep-path", "**/b/*", "--keep-path", "**/c/g1*"], ["remove", "-n", "2"], ["link", "--priority", "newest"]]),
+        ("hostile names", mk_hostile, [], [["remove"], ["link"], ["link", "--soft"]]),
+        ("lengths differ (transform report)", mk_sizes, ["--transform", "tr -d X"], [["link"], ["link", "--soft"], ["remove"]]),
+    ]
+    for tag, mk, gargs, ops in scenarios:
+        for op in ops:
+            d = tempfile.mkdtemp(prefix="c11b.", dir="/var/tmp")
+            try:
+                env = mkenv(d)
+                os.makedirs(os.path.join(d, "tmp"))
+                t1, t2 = os.path.join(d, "t1", "tree"), os.path.join(d, "t2", "tree")
+                os.makedirs(os.path.dirname(t1)); os.makedirs(os.path.dirname(t2))
+                mk(t1); mk(t2)
+                # same mtimes in both trees (priority options)
+                rep1, rep2 = os.path.join(d, "rep1.txt"), os.path.join(d, "rep2.txt")
+                for t, rp in ((t1, rep1), (t2, rep2)):
+                    with open(rp, "wb") as f:
+                        subprocess.run([binary, "group"] + gargs + ["tree"], cwd=os.path.dirname(t), stdout=f, stderr=subprocess.PIPE, env=env, timeout=120)
+                order = [l.split(b",")[0] for l in open(rep1, "rb").read().splitlines() if re.match(rb"^[0-9a-f]{16,}, ", l)]
+                with open(rep1, "rb") as f:
+                    dr = subprocess.run([binary] + op + ["--dry-run"], cwd=os.path.dirname(t1), stdin=f, stdout=subprocess.PIPE, stderr=subprocess.PIPE, env=env, timeout=120)
+                with open(rep2, "rb") as f:
+                    rr = subprocess.run([binary] + op, cwd=os.path.dirname(t2), stdin=f, stdout=subprocess.PIPE, stderr=subprocess.PIPE, env=env, timeout=120)
+                if b"panicked" in dr.stderr + rr.stderr or b"rror:" in dr.stderr.split(b"\n")[0]:
+                    # option not accepted by this build (e.g. -n): not a C11 matter
+                    continue
+                m1 = re.search(rb"Would process (\d+) files and reclaim (?:up to )?([^\n]*) space", dr.stderr)
+                m2 = re.search(rb"Processed (\d+) files and reclaimed (?:up to )?([^\n]*) space", rr.stderr)
+                s1 = (m1.group(1).decode(), m1.group(2).decode()) if m1 else None
+                s2 = (m2.group(1).decode(), m2.group(2).decode()) if m2 else None
+                if s1 != s2:
+                    devs.append({"tree": tag, "cmd": " ".join(op), "dry_run_summary": s1, "real_run_summary": s2})
+                    continue
+                # run the script on t1 and compare with the real run's tree t2
+                script = os.path.join(d, "script.sh")
+                open(script, "wb").write(dr.stdout)
+                br = subprocess.run(["bash", script], cwd=os.path.dirname(t1), stdout=subprocess.PIPE, stderr=subprocess.PIPE, env=env, timeout=120)
+                st1, st2 = _tree_state(t1), _tree_state(t2)
+                if st1 != st2:
+                    diff = sorted(set(st1[0]) ^ set(st2[0]))[:4] or [k for k in st1[0] if st1[0][k] != st2[0].get(k)][:4]
+                    devs.append({"tree": tag, "cmd": " ".join(op), "problem": "tree after `bash script` differs from the tree after the real run",
+                                 "differing_paths": diff, "bash_stderr": br.stderr.decode(errors="replace")[:200],
+                                 "link_sets_script": st1[1][:3] if st1[1] != st2[1] else None, "link_sets_real": st2[1][:3] if st1[1] != st2[1] else None})
+            finally:
+                shutil.rmtree(d, ignore_errors=True)
+    _memo[("c11", binary)] = devs
+    return devs
